@@ -5,6 +5,7 @@ import (
 	"fmt"
 	"math/rand"
 	"runtime"
+	"sort"
 	"strings"
 	"sync"
 	"sync/atomic"
@@ -126,13 +127,25 @@ func (w *cworld) tableTurn(r *rand.Rand) {
 		return
 	}
 	// map order is random; pick by index for more spread
+	sort.Strings(ids)
 	id := ids[r.Intn(len(ids))]
-	w.busy[id] = true
-	m := w.tables[id]
 	out := 0
 	if r.Intn(2) == 0 {
 		out = r.Intn(3)
 	}
+	w.mu.Unlock()
+	w.turn(r, id, out)
+}
+
+// turn: one report of table id with `out` eliminations; returns whether the regulator asked for anything
+func (w *cworld) turn(r *rand.Rand, id string, out int) bool {
+	w.mu.Lock()
+	if _, ok := w.tables[id]; !ok || w.busy[id] {
+		w.mu.Unlock()
+		return false
+	}
+	w.busy[id] = true
+	m := w.tables[id]
 	if out > len(m) {
 		out = len(m)
 	}
@@ -155,8 +168,9 @@ func (w *cworld) tableTurn(r *rand.Rand) {
 		w.fail("C09", "C09/sync-refused", fmt.Sprintf("SyncState(%s,%d): %v", id, out, err))
 		w.busy[id] = false
 		w.mu.Unlock()
-		return
+		return false
 	}
+	asked := rel > 0 || len(newp) > 0 || broken
 	w.give(id, newp, "sync")
 	m = w.tables[id]
 	if broken {
@@ -191,6 +205,37 @@ func (w *cworld) tableTurn(r *rand.Rand) {
 	w.mu.Lock()
 	w.busy[id] = false
 	w.mu.Unlock()
+	return asked
+}
+
+// settle: after the concurrent phase, sweep every table (no eliminations) until a sweep asks for nothing
+func (w *cworld) settle(r *rand.Rand, rep *Report) {
+	w.mu.Lock()
+	T0 := len(w.tables)
+	w.mu.Unlock()
+	bound := T0 + 8
+	for sweep := 0; sweep <= bound; sweep++ {
+		w.mu.Lock()
+		var ids []string
+		for id := range w.tables {
+			ids = append(ids, id)
+		}
+		w.mu.Unlock()
+		sort.Strings(ids)
+		r.Shuffle(len(ids), func(i, j int) { ids[i], ids[j] = ids[j], ids[i] })
+		asked := false
+		for _, id := range ids {
+			if w.turn(r, id, 0) {
+				asked = true
+			}
+		}
+		if !asked {
+			rep.Inc("concurrent_worlds_settled")
+			rep.HistAdd("sweeps_to_fixpoint_after_concurrent_phase", int64(sweep))
+			return
+		}
+	}
+	w.fail("C20", "C20/no-fixpoint", fmt.Sprintf("after a phase of concurrent registrations, reports and releases the tables are still being moved after %d sweeps (started with %d tables)", bound+1, T0))
 }
 
 // quiescence: every goroutine has returned
@@ -277,6 +322,9 @@ func runCWorld(seed int64, stream int64, idx int, rep *Report) {
 	}
 	wg.Wait()
 	w.checkQuiescent(rep)
+	if len(w.viol) == 0 {
+		w.settle(r, rep)
+	}
 	rep.Inc("concurrent_tournaments")
 	for _, v := range w.viol {
 		rep.Violate(v)
